@@ -56,8 +56,17 @@ func genC03(rng *rand.Rand, tier string) *sim.Plan {
 		rm = sim.U16(pick(rng, []uint16{1, 2, 3, 10, 65535}))
 	}
 	modes := []string{"", "", "never", "hold", "late", "reconly", "err"}
+	// carry runs: every connection holds its acknowledgements back and every reconnect pipelines them behind its
+	// CONNECT, so that the broker finds acknowledgements of the previous connection while it resumes the session
+	carryRun := chance(rng, 0.15)
+	if carryRun && p.Broker.MaxInflight < 2 {
+		p.Broker.MaxInflight = 5
+	}
 	connect := func(clean bool) sim.Op {
 		op := sim.Op{K: "connect", C: 0, Clean: clean, RecvMax: rm, Ack: pick(rng, modes), AckDup: chance(rng, 0.3)}
+		if carryRun {
+			op.Ack, op.Clean = "hold", false
+		}
 		if sv == 5 {
 			op.ExpiryS = sim.U32(3600)
 		}
@@ -98,7 +107,7 @@ func genC03(rng *rand.Rand, tier string) *sim.Plan {
 			}
 		} else {
 			cop := connect(chance(rng, 0.1))
-			cop.CarryAcks = chance(rng, 0.4)
+			cop.CarryAcks = carryRun || chance(rng, 0.4)
 			ph.Ops = append(ph.Ops, cop)
 			online = true
 		}
